@@ -28,6 +28,10 @@
     - [od_sequence_evasion]  evasion = true: NoDup out, every move of the evasion batch list is
                             handed out, every handed out move is the PV move or in the non
                             evasion batch list.
+    Hypotheses of the theorems: [e_sort] returns a permutation of its argument (true of
+    moveslice.Sort with any sort values, [go_sort_perm]); no stage generator produces the code 0
+    (MoveNone, the end marker of the caller's loop) for the evasion flag of the call and for
+    evasion = false.
     Not covered (by design of the engine, movegen.go:198): a second enumeration of the SAME
     position key without ResetOnDemand. *)
 From Coq Require Import NArith ZArith List Bool Lia ZifyN ZifyBool Permutation.
